@@ -103,9 +103,12 @@ Definition compats (P : pworld) (r : rdump) : list Z := filter (fun c => negb (c
 Definition compat_ok (P : pworld) (r : rdump) : bool :=
   match compats P r with [] => true | c :: l => forallb (Z.eqb c) l end.
 
+(* every location is a location of the problem's matrix *)
+Definition locs_ok (P : pworld) (t : list act) : bool := forallb (fun a => (0 <=? a_loc a) && (a_loc a <? pw_n P)) t.
+
 Definition route0_viol (P : pworld) (vs : vspec) (r : rdump) : list violation :=
   let t := tour_of r in
-  flag (shape_ok vs t) (VShape (r_actor r)) ++
+  flag (shape_ok vs t && locs_ok P t) (VShape (r_actor r)) ++
   flag (time_feasible (pdur P) t) (VTime (r_actor r)) ++
   flag (load_feasible (v_cap (vs_veh vs)) t) (VLoad (r_actor r)) ++
   report (multi_ok P r) (VMulti (r_actor r)) (job_ids r) ++
@@ -164,7 +167,7 @@ Definition inv0_b (P : pworld) (d : dump) : bool := match inv0_viol P d with [] 
 (* a tour that may be empty (the state between the removals of a ruin and `restore`) *)
 Definition RouteOK0 (P : pworld) (r : rdump) : Prop :=
   exists vs, find_vs P (r_actor r) = Some vs /\
-    shape_ok vs (tour_of r) = true /\
+    shape_ok vs (tour_of r) = true /\ locs_ok P (tour_of r) = true /\
     feasible (pdur P) (vs_veh vs) (tour_of r) = true /\                      (* every window, the shift end, the capacity *)
     (forall j, In j (job_ids r) -> multi_ok P r j = true) /\                   (* multi jobs whole and in order *)
     demand_ok r = true /\
